@@ -267,6 +267,43 @@ def units(w):
     for which in ("NodeDefDestructuring", "NodeAssignDestructuring"):
         U.append(Unit(f"nodes.py::{which}.evaluate", s_destr_stmt(which), p_destr_stmt, name=f"nodes.py::{which}.evaluate[frame]", allowed=("CklRuntimeError",)))
 
+    # def binds the value itself and leaves it as it is: a function that already has a name keeps it (library functions written
+    # in the language store their parameters in local variables with def)
+    def s_def(kind):
+        def setup(it):
+            if kind == "named function":
+                v = F.func("first_name", ["x"], lambda it_, vs: vs[0])
+                lam = w.import_module("ckl.functions").ns.get("FuncLambda")
+                if lam is not None:
+                    v = Obj(lam, {"name": "first_name", "argNames": PList(["x"]), "defValues": PList([None]), "body": S.node("b", V.NULL),
+                                  "lexicalEnv": real_env(w, it, {}), "info": "", "secure": True, "serial": 7})
+                    v.fresh = False
+            elif kind == "anonymous function":
+                lam = w.import_module("ckl.functions").ns["FuncLambda"]
+                v = Obj(lam, {"name": "lambda", "argNames": PList(["x"]), "defValues": PList([None]), "body": S.node("b", V.NULL),
+                              "lexicalEnv": real_env(w, it, {}), "info": "", "secure": True, "serial": 7})
+                v.fresh = False
+            else:
+                v = c13.make_value(V, F, it, kind, "v")
+            node = Obj(nodes["NodeDef"], {"identifier": "second_name", "expression": S.node("e", v), "info": "", "pos": V.pos(it)})
+            env = real_env(w, it, {})
+            return [node, env], {}, {"v": v, "env": env, "name0": v.fields.get("name") if isinstance(v, Obj) else None}
+        return setup
+
+    def p_def(kind):
+        def post(it, c, o):
+            it.check("post:returns-the-value-itself", o.kind == "return" and o.value is c["v"])
+            ent = [e for e in c["env"].fields["map"].entries if e[0] == "second_name"]
+            it.check("post:binding-holds-the-value-itself(no copy)", len(ent) == 1 and ent[0][1] is c["v"])
+            bad = [(type(x[0]).__name__, x[1]) for x in it.writes if x[1] not in ("info",) and x[0] is not c["env"] and x[0] is not c["env"].fields.get("map")
+                   and not (kind == "anonymous function" and x[0] is c["v"] and x[1] == "name")]
+            it.check("frame:def-writes-only-the-binding(and the documentation text; an anonymous function gets its first name)", not bad, detail=str(bad[:3]))
+            if kind == "named function":
+                it.check("post:a-function-that-has-a-name-keeps-it", c["v"].fields.get("name") == c["name0"])
+        return post
+    for kind in ("named function", "anonymous function", "list1", "map1", "object1", "string", "int"):
+        U.append(Unit("nodes.py::NodeDef.evaluate", s_def(kind), p_def(kind), name=f"nodes.py::NodeDef.evaluate[frame, {kind}]", allowed=()))
+
     # ValueList.addItems rebinds instead of extending (a later mutation of the result must not reach the source list)
     def s_additems(it):
         dst = V.list_of(it, [], "dst")
